@@ -91,6 +91,9 @@ class X87:
                 self.st[1] = r
                 self.st.pop(0)
                 continue
+            if l in ('fldz', 'fld1'):
+                self.st.insert(0, z3.fpPlusZero(F80) if l == 'fldz' else z3.FPVal(1.0, F80))
+                continue
             if l == 'fchs':
                 self.st[0] = z3.fpNeg(self.st[0])
                 continue
